@@ -9,7 +9,8 @@ git -C /repo worktree add -q --detach $wt HEAD || exit 2
 cd $wt
 demodir=.
 grep -q '^package x2j' $src/DEMO_test.go && demodir=x2j-wrapper
-grep -q '^package j2x' $src/DEMO_test.go && demodir=j2x
+grep -q "^package j2x" $src/DEMO_test.go && demodir=j2x
+[ -n "$DEMODIR" ] && demodir=$DEMODIR
 res=""
 git apply --whitespace=nowarn $src/patch.diff && res="$res applies" || res="$res APPLY-FAIL"
 go build . ./j2x ./x2j ./x2j-wrapper && res="$res builds" || res="$res BUILD-FAIL"
